@@ -42,7 +42,7 @@ func TestRoots(t *testing.T) {
 			}
 		}
 		st := time.Now()
-		e.AnalyzeRoot(fn, RootOptions{ZeroReceiver: true})
+		e.AnalyzeRoot(fn, RootOptions{ZeroReceiver: os.Getenv("NOZERO") == "", ElemsNonNil: os.Getenv("ELEMSNN") != ""})
 		fails := 0
 		for _, o := range e.SortedObls() {
 			if o.Failed > 0 {
